@@ -48,6 +48,12 @@ def logicToks (e : Exp α) (ts : List Tok) : List Tok :=
     | .not inner => if isLeaf inner then ts else parenToks ts
     | _ => parenToks ts
 
+/-- token twin of `logicWrap` -/
+def logicWrapToks (ctx : Option (BinOp × Bool)) (ts : List Tok) : List Tok :=
+  match ctx with
+  | none => ts
+  | some _ => parenToks ts
+
 /-- token twin of `showE` -/
 def dToks (tok : α → String) : Option (BinOp × Bool) → Exp α → List Tok
   | ctx, .bin op l r =>
@@ -59,14 +65,14 @@ def dToks (tok : α → String) : Option (BinOp × Bool) → Exp α → List Tok
   | _, .var n => [.word n]
   | _, .un op e => unKwTok op :: (if isLeaf e then dToks tok none e else parenToks (dToks tok none e))
   | _, .not e => .word "not" :: (if isLeaf e then dToks tok none e else parenToks (dToks tok none e))
-  | _, .and [a, b] => logicToks a (dToks tok none a) ++ .word "and" :: logicToks b (dToks tok none b)
-  | _, .or [a, b] => logicToks a (dToks tok none a) ++ .word "or" :: logicToks b (dToks tok none b)
-  | _, .xor a b => logicToks a (dToks tok none a) ++ .word "xor" :: logicToks b (dToks tok none b)
-  | _, .implies a b => logicToks a (dToks tok none a) ++ .word "implies" :: logicToks b (dToks tok none b)
-  | _, .iff a b => logicToks a (dToks tok none a) ++ .word "iff" :: logicToks b (dToks tok none b)
+  | ctx, .and [a, b] => logicWrapToks ctx (logicToks a (dToks tok none a) ++ .word "and" :: logicToks b (dToks tok none b))
+  | ctx, .or [a, b] => logicWrapToks ctx (logicToks a (dToks tok none a) ++ .word "or" :: logicToks b (dToks tok none b))
+  | ctx, .xor a b => logicWrapToks ctx (logicToks a (dToks tok none a) ++ .word "xor" :: logicToks b (dToks tok none b))
+  | ctx, .implies a b => logicWrapToks ctx (logicToks a (dToks tok none a) ++ .word "implies" :: logicToks b (dToks tok none b))
+  | ctx, .iff a b => logicWrapToks ctx (logicToks a (dToks tok none a) ++ .word "iff" :: logicToks b (dToks tok none b))
   | _, _ => []
 
-/-- the logic nodes `Display` prints WITHOUT parentheses of their own -/
+/-- the dedicated logic nodes (parenthesised as operands of a `BinOp`) -/
 def isLogicNode : Exp α → Bool
   | .and _ | .or _ | .xor _ _ | .implies _ _ | .iff _ _ => true
   | _ => false
